@@ -10,7 +10,9 @@ NONREC = [e for e in ALL_ACME_ERRORS if e not in RECOVERABLE]
 # CA "dialects": ways in which conforming CAs differ that no property mentions (the names in URLs, headers a client may ignore,
 # members it must ignore).  Every scenario is run against one of them, chosen by its tag; what a scenario sets itself is kept.
 DIALECTS = [{}, {"host": "LocalHost"}, {"retry_after": 0}, {"unknown_members": True}, {"orders_field": False},
-            {"retry_after": 7, "host": "LocalHost", "unknown_members": True}, {"pem_style": "crlf"}, {"pem_style": "nofinal"}, {}]
+            {"retry_after": 7, "host": "LocalHost", "unknown_members": True}, {"pem_style": "crlf"}, {"pem_style": "nofinal"}, {},
+            # a CA that validates while it answers the challenge POST (the answer already says "valid"); one that lists contacts in its own order
+            {"authz_polls": 0}, {"contact_order": "reversed"}, {"authz_polls": 0, "contact_order": "sorted", "retry_after": 0}]
 
 
 def with_dialect(spec):
